@@ -11,7 +11,7 @@ MAIN = "cmd/helios"
 ENGINES = [
     dict(name="S", path="engine/shim/vrt", serves_properties=["C02", "C04", "C05", "C06", "C07", "C08", "C09", "C11", "C12", "C13", "C19"],
          kind_free_text="controlled cooperative scheduler + stateless replay DFS with preemption bounding over the real Helios code (sync/atomic/time/go/select rewritten onto shims by vgen)"),
-    dict(name="W", path="engine/shim/wire", serves_properties=["C01", "C14", "C15", "C16"],
+    dict(name="W", path="engine/shim/wire", serves_properties=["C01", "C14", "C15", "C16", "C17"],
          kind_free_text="exhaustive enumeration of finite input / configuration / fault-sequence products over real connections: raw-socket HTTP/1.1 client, scripted backends on loopback listeners, the real handler chain behind the real http.Server; differential and reference oracles on the exchanged bytes"),
     dict(name="H", path="engine/shim/vh/hrun.go", serves_properties=["C02", "C04", "C05", "C06", "C07", "C08", "C09", "C11", "C12", "C13", "C19"],
          kind_free_text="explicit-state breadth-first search over event histories of the real objects under a virtual clock, reflective state fingerprint for deduplication, reference-model / monitor oracle on every transition"),
@@ -208,6 +208,17 @@ CHECKS = {
         jobs=[
             dict(name="c16w", part="W", pkg=MAIN, run="TestVerifC16", mode="plain", gomaxprocs=4, shards=dict(quick=12, thorough=16), timeout=dict(quick=600, thorough=3000)),
             dict(name="c16u", part="Unique", pkg=MAIN, run="TestVerifC16Unique", mode="plain", gomaxprocs=2, shards=1, timeout=dict(quick=600, thorough=3000)),
+        ],
+        assumptions=[],
+    ),
+    "C17": dict(
+        level="exploration",
+        engine="W+P",
+        technique="exhaustive enumeration of all plugin sequences up to a length with tracing probes at every position, of every invalid plugin entry at every position of every short chain, and start-up of the real binary on invalid chains",
+        text="Every sequence of the six built-in plugins of length <= 4 (thorough <= 5) is built with the public BuildChain with a tracing probe plugin (registered through the public RegisterBuiltin) before, between and after the plugins; three requests per chain (accepted by all, rejected by custom-auth, rejected by size_limit): probes are entered in configured order and left in reverse, a rejection at position i means no later probe and no base handler runs and the status is an error. Each of 23 invalid plugin entries (unknown, empty or misspelt name; missing, wrong-typed, zero, negative or out-of-range options of every plugin that has options) at every position of every chain of up to two valid plugins must make BuildChain (and buildHandler) fail; the real binary, started on generated YAML with one invalid chain per plugin, must exit non-zero without ever accepting a connection on the proxy port.",
+        note="Order and gating are decided in-process on the chain built by the real BuildChain (the property is about call order, not bytes); the binary part builds cmd/helios from the working tree.",
+        jobs=[
+            dict(name="c17w", part="W", pkg=MAIN, run="TestVerifC17", mode="plain", gomaxprocs=2, needs_binary=True, shards=dict(quick=8, thorough=16), timeout=dict(quick=600, thorough=3000)),
         ],
         assumptions=[],
     ),
